@@ -9,12 +9,12 @@ FM = "pysmt.formula.FormulaManager"
 EXPLANATION = (
     "Static analysis of fnode.py/formula.py/shortcuts.py: the dispatch table of FNode's infix and "
     "named methods - (non-BV constructor, BV constructor, operand order incl. reflected forms) - "
-    "equals the reference table (R1); the derived constructors are expanded by the abstract "
-    "interpreter over symbolic operands into core-operator terms and compared with what they "
-    "abbreviate: comparison swaps/negations (R2), min/max by order cases (R3), n-ary left folds (R4), "
-    "cardinality encodings by truth table (R5), signed constants (R6), bvsmod against the SMT-LIB "
-    "definitional expansion (R7), Abs by sign cases (R8).")
-NOT_DECIDED = ["meaning of bvsmod for all bit-vector values beyond agreement with the standard's definition text"]
+    "equals the reference table (R1); 160 derived constructors / infix forms are expanded by the "
+    "abstract interpreter over opaque operands into core-operator terms and compared, for all operand "
+    "values over small domains, with the function the name denotes: comparisons, min/max, cardinality "
+    "encodings arity 0-4, AllDifferent, Abs, SBV with its range check, bvsmod, nand/nor/xnor, n-ary "
+    "folds, repeat, shifts by a Python int, all infix and reflected forms, slices (R2).")
+NOT_DECIDED = ["values beyond the bounded domains of R2 (bit-vectors exhaustively up to width 3, Int/Real sampled)"]
 
 # dunder -> (non-BV manager ctor, BV manager ctor, mode)   mode: 'lr' = (self, right)
 INFIX = {
